@@ -166,12 +166,13 @@ theorem parseDurLoop_group (fuel k d : Nat) (u : UInt8) (unit : Nat) (rest : Byt
     rcases hu with ⟨_, h'⟩ | ⟨_, h'⟩ | ⟨_, h'⟩ <;> subst h' <;> omega
   have hov2 : ¬ (d + k * unit > 9223372036854775808) := by omega
   have hov3 : ¬ (k * unit > 9223372036854775808) := by omega
+  have hmod : (d + k * unit) % 18446744073709551616 = d + k * unit := Nat.mod_eq_of_lt (by omega)
   have hlf : leadingFraction [] 0 0 = (0, 0) := rfl
   have hs : natDigits k ++ u :: rest = c :: (r ++ u :: rest) := by rw [hcr]; rfl
   conv => lhs; unfold parseDurLoop
   rw [hs] at hlead hlen ⊢
   simp only [hfirst, Bool.not_true, Bool.false_eq_true, if_false, hlead, splitFrac_nodot u rest hu46, hlen,
-    Bool.false_and, htw.1, htw.2, hunit, hov, hov2, hov3, hlf, List.isEmpty_cons, Nat.lt_irrefl]
+    Bool.false_and, htw.1, htw.2, hunit, hov, hov2, hov3, hlf, hmod, List.isEmpty_cons, Nat.lt_irrefl]
 
 theorem groupTail_digits (k : Nat) (rest : Bytes) : GroupTail (natDigits k ++ rest) := by
   obtain ⟨c, r, h, hc⟩ := natDigits_head k
